@@ -424,6 +424,7 @@ static void handle_include (const char *inc_name, int optional) {
   static char buf[1024];
   incstate_t *is;
   int delim, fd;
+  static int macro_depth = 0;	/* #include MACRO indirection, bounded like nested includes */
 
   /* need a writable copy */
   fname[sizeof(fname)-1] = 0;
@@ -435,14 +436,16 @@ static void handle_include (const char *inc_name, int optional) {
     {
       defn_t *d;
 
-      if ((d = lookup_define (name)) && d->nargs == -1)
+      if (macro_depth < MAX_INCLUDE_DEPTH && (d = lookup_define (name)) && d->nargs == -1)
         {
           char *q;
 
           q = d->exps; /* #include MACRO */
           while (isspace (*q))
             q++;
+          macro_depth++;
           handle_include (q, optional);
+          macro_depth--;
         }
       else
         {
